@@ -120,12 +120,46 @@ deriving Repr, DecidableEq, Inhabited
     value `none` = Python `None` -/
 abbrev Sel := List (Nat × Option Nat)
 
+/-- a LOCATION as a collection reports it (`Index.location`, `signatures_with_location`, the `location` of a search
+    result, the `internal_location` column of a manifest), up to the names of temporary directories:
+    `dir d` = the path of disk artifact `d` (a zip, a database, a manifest file, a directory), `file d i` = `<d>/<i>.sig`,
+    `md5 m` = the member name `signatures/<md5>.sig.gz` of the sketch with hashes `m`, `grp g` = `g<g>.sig` (a member of an
+    ad-hoc zip), `num i` = the relative name `<i>.sig`, `label s` = a source label given by the caller -/
+inductive Loc where
+  | none
+  | dir (d : Nat)
+  | file (d i : Nat)
+  | md5 (m : List Nat)
+  | grp (g : Nat)
+  | num (i : Nat)
+  | label (s : String)
+deriving Repr, DecidableEq, Inhabited
+
+/-- `os.path.join(parent, loc)`; `.error` = TypeError (`loc` is None) -/
+def joinLoc (parent l : Loc) : Except String Loc :=
+  match l with
+  | .none => .error "TypeError"
+  | .dir d => .ok (.dir d)                       -- an absolute path wins
+  | .file d i => .ok (.file d i)
+  | .num i =>
+    match parent with
+    | .dir d => .ok (.file d i)
+    | .label p => .ok (.label (p ++ "/" ++ toString i ++ ".sig"))
+    | _ => .ok (.num i)
+  | .label s =>
+    match parent with
+    | .label p => .ok (.label (p ++ "/" ++ s))
+    | _ => .ok (.label s)
+  | other => .ok other
+
 /-- a manifest row dict (`make_manifest_row` / `load_from_csv`) -/
 structure Row where
   snap : SigVal                 -- the metadata columns: a snapshot taken when the row was made
   sig : Option Nat              -- row["signature"]: a signature cell (MultiIndex) or None / absent
   hasSigKey : Bool              -- whether the key "signature" exists at all
-  loc : Option (Nat × Nat)      -- internal_location: (store, position) for rows read from disk
+  loc : Option (Nat × Nat)      -- (store, position) for rows whose signature is re-read from disk
+  iloc : Loc := .none           -- the `internal_location` column
+  anon : Bool := false          -- row["signature"] is a private FROZEN object (read from disk for this row): its value is `snap`
 deriving Repr, Inhabited
 
 structure ViewCell where
@@ -138,7 +172,8 @@ structure ViewCell where
   sel : Option Sel := none            -- lazy, zipnm, sqlite, lcasql: the view's OWN selection dict
   rows : List Nat := []               -- zipm, multi, standalone: the view's OWN row list (of shared rows)
   picks : List (List String) := []    -- sbt, sbtdisk, lca: `self.picklists` (name picklists, by value)
-  scaled : Nat := 0                   -- sbt, sbtdisk, lca: the `scaled` of the members
+  scaled : Nat := 0                   -- sbt, sbtdisk, lca: the `scaled` of the members; multi: the `prepend_location` flag
+  loc : Loc := .none                  -- `Index.location` (for a MultiIndex: its `parent`)
 deriving Repr, Inhabited
 
 structure World where
@@ -296,7 +331,7 @@ def mutableOut (vs : List SigVal) : List SigOut := vs.map (fun v => (!Gen.ownSql
 /-- `list(view.signatures())` in iteration order; `.error` = the exception class it raises -/
 def viewSigs (w : World) (vc : ViewCell) : Except String (List SigOut) :=
   match vc.kind with
-  | .linear => .ok ((sigCellsOf w vc.sigs).map (fun c => (c.frozen, c.val)))
+  | .linear => .ok (frozenOut vc.vals ++ (sigCellsOf w vc.sigs).map (fun c => (c.frozen, c.val)))
   | .lazy =>
     match w.views.cells[vc.db]? with
     | none => .ok []
@@ -322,9 +357,9 @@ def viewSigs (w : World) (vc : ViewCell) : Except String (List SigOut) :=
       match w.rows[r]? with
       | some row =>
         match row.sig with
-        | some c => w.sigs.cells[c]?
-        | none => none
-      | none => none)).map (fun c => (c.frozen, c.val)))
+        | some c => (w.sigs.cells[c]?).map (fun c => (c.frozen, c.val))
+        | none => if row.anon then some (true, row.snap) else none
+      | none => none)))
   | .sbt =>
     .ok (((sigCellsOf w vc.sigs).filter (fun c => passesPicks vc.picks c.val.name)).map
       (fun c => (c.frozen, c.val)))
@@ -333,6 +368,35 @@ def viewSigs (w : World) (vc : ViewCell) : Except String (List SigOut) :=
     .ok (frozenOut (((w.stores[vc.store]?).getD []).filter (fun v => passesPicks vc.picks v.name)))
   | .sqlite | .lcasql =>
     (filterSql (vc.sel.getD []) ((w.stores[vc.store]?).getD [])).map mutableOut
+
+/-! ### the locations a view reports -/
+
+/-- the locations `signatures_with_location()` attaches, aligned with `viewSigs` -/
+def viewLocs (w : World) (vc : ViewCell) : Except String (List Loc) :=
+  match vc.kind with
+  | .multi =>
+    -- `row["internal_location"]`, with `os.path.join(self.parent, loc)` when `prepend_location` is set
+    (vc.rows.filterMap (fun r =>
+      match w.rows[r]? with
+      | some row =>
+        match row.sig with
+        | some c => (w.sigs.cells[c]?).map (fun _ => row.iloc)
+        | none => if row.anon then some row.iloc else none
+      | none => none)).mapM (fun l => if vc.scaled != 0 then joinLoc vc.loc l else .ok l)
+  | .standalone =>
+    .ok (vc.rows.filterMap (fun r =>
+      match w.rows[r]? with
+      | some row =>
+        match row.loc with
+        | some (st, i) => (((w.stores[st]?).getD [])[i]?).map (fun _ => row.iloc)
+        | none => none
+      | none => none))
+  | .lazy =>
+    -- the wrapped LinearIndex's location
+    match w.views.cells[vc.db]? with
+    | none => .ok []
+    | some dbc => (viewSigs w vc).map (fun l => l.map (fun _ => dbc.loc))
+  | _ => (viewSigs w vc).map (fun l => l.map (fun _ => vc.loc))
 
 /-! ### what a view ANSWERS besides `signatures()`: `len`, manifest membership, a containment search -/
 
@@ -355,7 +419,8 @@ def viewMember (w : World) (vc : ViewCell) (m : MH) : Option Bool :=
 /-- `len(view)` -/
 def viewLen (w : World) (vc : ViewCell) : Except String Nat :=
   match vc.kind with
-  | .linear | .sbt => .ok (sigCellsOf w vc.sigs).length       -- `len(self._signatures)` / `len(self._leaves)`: picklists ignored
+  | .linear => .ok (vc.vals.length + (sigCellsOf w vc.sigs).length)       -- `len(self._signatures)`
+  | .sbt => .ok (sigCellsOf w vc.sigs).length                             -- `len(self._leaves)`: picklists ignored
   | .lazy | .zipnm | .sqlite | .lcasql => (viewSigs w vc).map List.length
   | .zipm | .multi | .standalone => .ok vc.rows.length       -- `len(self.manifest)`
   | .lca => .ok vc.vals.length                               -- `_next_index`: picklists ignored
@@ -375,7 +440,7 @@ inductive Found where
   | stale                      -- an in-memory SBT one of whose (referenced, mutable) members was given other hashes
                                -- after insertion: the internal nodes no longer cover it (observation C15.4): not covered
   | err (e : String)
-  | names (l : List String)
+  | names (l : List (String × Loc))
 
 /-- `view.search(probe, threshold=0, do_containment=True)`: the names of the sketches sharing a hash with the probe.
     (Whether SqliteIndex refuses an EMPTY query — `max()` of no hashes — or answers nothing is re-read from the source:
@@ -392,7 +457,11 @@ def viewFind (w : World) (vc : ViewCell) : Found :=
           (sigCellsOf w vc.sigs).map (·.val.mh.mins) != vc.vals.map (·.mh.mins) then .stale
       else if Gen.ownSqliteFindRefusesEmptyQuery && (vc.kind == .sqlite || vc.kind == .lcasql) && q.mins.isEmpty then
         .err "ValueError"
-      else .names ((l.filter (fun o => !(interL o.2.mh.mins q.mins).isEmpty)).map (·.2.name))
+      else
+        match viewLocs w vc with
+        | .error e => .err e
+        | .ok ls =>
+          .names (((l.zip ls).filter (fun p => !(interL p.1.2.mh.mins q.mins).isEmpty)).map (fun p => (p.1.2.name, p.2)))
 
 /-! ### primitive effects -/
 
@@ -557,6 +626,16 @@ inductive Op where
   /-- an ad-hoc zip whose member files hold `k` signatures each (so that the `ss in manifest` filter of
       `ZipFileLinearIndex.signatures` matters); same cells as `vZip` -/
   | vZipGroups (r : Nat) (manifest : Bool) (k : Nat) (ss : List Nat)
+  /-- constructors that take EXISTING views as input (and may only read them):
+      `MultiIndex.load([views…], [label or None…], parent="p", prepend_location)` -/
+  | vMultiOf (r : Nat) (prepend : Bool) (inputs : List (Nat × Option String))
+  /-- `LinearIndex(list(view.signatures()))` (0), an SBT (1) / an LCA_Database (2) filled by inserting `view.signatures()` -/
+  | vFrom (r kind v : Nat)
+  /-- `StandaloneManifestIndex.load(csv)` over the manifest exported from a standalone view -/
+  | vStandOf (r v : Nat)
+  /-- the view's signatures saved to disk and loaded back with `MultiIndex.load_from_path` (0, one .sig file),
+      `load_from_directory` (1, one file per signature), `load_from_pathlist` (2, a list naming that directory and that file) -/
+  | vMPath (r mode v : Nat)
 deriving Repr
 
 def World.sigCids (w : World) (ss : List Nat) : Option (List Nat) := ss.mapM w.sigs.cid
@@ -593,10 +672,10 @@ def updateWith (w : World) (r s : Nat) (body : SigVal → Except MH.Err SigVal) 
   if Gen.ownUpdateCopiesThenFreezes then updateCopy w r s body else updateInPlace w r s body
 
 /-- rows of a manifest read back from a zip (`load_from_csv`: `row["signature"] = None`) -/
-def diskRows (st : Nat) (vs : List SigVal) (hasKey : Bool) : List Row :=
+def diskRows (st : Nat) (vs : List SigVal) (hasKey : Bool) (iloc : Nat → SigVal → Loc := fun _ _ => .none) : List Row :=
   (List.range vs.length).filterMap (fun i =>
     match vs[i]? with
-    | some v => some { snap := v, sig := none, hasSigKey := hasKey, loc := some (st, i) }
+    | some v => some { snap := v, sig := none, hasSigKey := hasKey, loc := some (st, i), iloc := iloc i v }
     | none => none)
 
 def rowIdsFrom (start n : Nat) : List Nat := (List.range n).map (· + start)
@@ -616,22 +695,25 @@ def selectOutcome (w : World) (vc : ViewCell) (kw : Sel) : SelOutcome :=
     match filterSel kw (fun (p : Nat × SigCell) => p.2.val.mh)
         (vc.sigs.filterMap (fun c => (w.sigs.cells[c]?).map (fun x => (c, x)))) with
     | none => .err "ValueError"
-    | some l => .fresh { kind := .linear, sigs := l.map Prod.fst }
+    | some l =>
+      match filterSel kw (fun (v : SigVal) => v.mh) vc.vals with
+      | none => .err "ValueError"
+      | some vs => .fresh { kind := .linear, sigs := l.map Prod.fst, vals := vs, loc := vc.loc }
   | .lazy =>
     match mergeLazy (vc.sel.getD []) kw with
     | none => .err "ValueError"
-    | some d => .fresh { kind := .lazy, db := vc.db, sel := some d }
+    | some d => .fresh { kind := .lazy, db := vc.db, sel := some d, loc := vc.loc }
   | .zipnm =>
     match vc.sel with
-    | none | some [] => .fresh { kind := .zipnm, store := vc.store, sel := some kw }
+    | none | some [] => .fresh { kind := .zipnm, store := vc.store, sel := some kw, loc := vc.loc }
     | some d =>
       match mergeZip d kw with
       | none => .err "ValueError"
-      | some d' => .fresh { kind := .zipnm, store := vc.store, sel := some d' }
+      | some d' => .fresh { kind := .zipnm, store := vc.store, sel := some d', loc := vc.loc }
   | .zipm | .multi | .standalone =>
     -- (`scaled` of a MultiIndex cell = its `prepend_location` flag, which `select` passes on)
     .fresh { kind := vc.kind, store := vc.store, rows := vc.rows.filter (fun r => rowPasses kw (rowMh w r)),
-             scaled := vc.scaled }
+             scaled := vc.scaled, loc := vc.loc }
   | .sbt =>
     -- `first_sig is None`: nothing (left) to select from
     if ((sigCellsOf w vc.sigs).filter (fun c => passesPicks vc.picks c.val.name)).isEmpty then .inplace vc
@@ -659,7 +741,7 @@ def selectOutcome (w : World) (vc : ViewCell) (kw : Sel) : SelOutcome :=
       | some d =>
         -- an LCA_SqliteDatabase re-reads its rows while it is constructed (`_build_index`)
         if vc.kind == .lcasql && !d.isEmpty && d.lookup 2 == some none then .err "TypeError"
-        else .fresh { kind := vc.kind, store := vc.store, sel := some d }
+        else .fresh { kind := vc.kind, store := vc.store, sel := some d, loc := vc.loc }
 
 /-- `select(picklist=pl)` on the in-place kinds: the picklist is appended, THEN a second one is refused -/
 def pickOutcome (w : World) (vc : ViewCell) (names : List String) : Option (ViewCell × Res) :=
@@ -707,6 +789,58 @@ def heldIds (w : World) (vc : ViewCell) : Option (List Nat) :=
       (filterSel (vc.sel.getD []) (fun (p : Nat × SigCell) => p.2.val.mh)
         (dbc.sigs.filterMap (fun c => (w.sigs.cells[c]?).map (fun x => (c, x))))).map (·.map Prod.fst)
   | _ => some []
+
+/-- kinds whose iteration order is determined (the constructors from views are defined on these) -/
+def VKind.ordered : VKind → Bool
+  | .linear | .lazy | .multi | .zipnm | .zipm | .standalone | .sqlite => true
+  | _ => false
+
+/-- what `view.signatures()` hands out, in iteration order: the very cell the collection holds (`inl`), or a private frozen
+    object read for the occasion (`inr`, by value) -/
+def members (w : World) (vc : ViewCell) : Except String (List (Sum Nat SigVal)) :=
+  match vc.kind with
+  | .linear =>
+    .ok (vc.vals.map Sum.inr ++ (vc.sigs.filter (fun c => (w.sigs.cells[c]?).isSome)).map Sum.inl)
+  | .lazy =>
+    match heldIds w vc with
+    | none => .error "ValueError"
+    | some l => .ok (l.map Sum.inl)
+  | .multi =>
+    .ok (vc.rows.filterMap (fun r =>
+      match w.rows[r]? with
+      | some row =>
+        match row.sig with
+        | some c => if (w.sigs.cells[c]?).isSome then some (Sum.inl c) else none
+        | none => if row.anon then some (Sum.inr row.snap) else none
+      | none => none))
+  | _ => (viewSigs w vc).map (fun l => l.map (fun o => Sum.inr o.2))
+
+def memberVal (w : World) : Sum Nat SigVal → Option SigVal
+  | .inl c => (w.sigs.cells[c]?).map (·.val)
+  | .inr v => some v
+
+/-- `make_manifest_row(ss, iloc)` for a member of an input collection -/
+def memberRow (w : World) (iloc : Loc) : Sum Nat SigVal → Option Row
+  | .inl c => (w.sigs.cells[c]?).map (fun sc => { snap := sc.val, sig := some c, hasSigKey := true, loc := none, iloc := iloc })
+  | .inr v => some { snap := v, sig := none, hasSigKey := true, loc := none, iloc := iloc, anon := true }
+
+/-- the rows `MultiIndex.load` builds from its inputs (an input whose `signatures()` raises aborts the construction) -/
+def multiRows (w : World) : List (ViewCell × Option String) → Except String (List Row)
+  | [] => .ok []
+  | (vc, lab) :: rest =>
+    match members w vc with
+    | .error e => .error e
+    | .ok ms =>
+      match multiRows w rest with
+      | .error e => .error e
+      | .ok rs =>
+        let iloc := match lab with
+          | some s => Loc.label s
+          | none => vc.loc
+        .ok (ms.filterMap (memberRow w iloc) ++ rs)
+
+def anonRows (vs : List SigVal) (iloc : Nat → Loc) : List Row :=
+  vs.zipIdx.map (fun (v, i) => { snap := v, sig := none, hasSigKey := true, loc := none, iloc := iloc i, anon := true })
 
 def step (w : World) : Op → World × Res
   | .mh op =>
@@ -772,7 +906,8 @@ def step (w : World) : Op → World × Res
   | .vLazy r v =>
     match w.views.cid v, w.views.cell v with
     | some c, some vc =>
-      if vc.kind == .linear then (w.viewFresh r { kind := .lazy, db := c, sel := some [] }, .ok) else (w, .bad)
+      if vc.kind == .linear && vc.vals.isEmpty then (w.viewFresh r { kind := .lazy, db := c, sel := some [] }, .ok)
+      else (w, .bad)
     | _, _ => (w, .bad)
   | .vZip r manifest ss =>
     match w.sigVals ss with
@@ -782,10 +917,10 @@ def step (w : World) : Op → World × Res
         let st := w.stores.length
         let w1 := { w with stores := w.stores ++ [vs] }
         if manifest then
-          let rs := diskRows st vs true
+          let rs := diskRows st vs true (fun _ v => .md5 v.mh.mins)
           ({ w1 with rows := w.rows ++ rs }.viewFresh r
-            { kind := .zipm, store := st, rows := rowIdsFrom w.rows.length rs.length }, .ok)
-        else (w1.viewFresh r { kind := .zipnm, store := st, sel := none }, .ok)
+            { kind := .zipm, store := st, rows := rowIdsFrom w.rows.length rs.length, loc := .dir st }, .ok)
+        else (w1.viewFresh r { kind := .zipnm, store := st, sel := none, loc := .dir st }, .ok)
     | none => (w, .bad)
   | .vStandalone r ss =>
     match w.sigVals ss with
@@ -793,20 +928,21 @@ def step (w : World) : Op → World × Res
       if vs.isEmpty || !distinctMins vs then (w, .bad)
       else
         let st := w.stores.length
-        let rs := diskRows st vs false
+        let rs := diskRows st vs false (fun i _ => .file st i)
         ({ w with stores := w.stores ++ [vs], rows := w.rows ++ rs }.viewFresh r
-          { kind := .standalone, store := st, rows := rowIdsFrom w.rows.length rs.length }, .ok)
+          { kind := .standalone, store := st, rows := rowIdsFrom w.rows.length rs.length, loc := .dir st }, .ok)
     | none => (w, .bad)
   | .vMulti r vs =>
+    -- `MultiIndex.load(idxs, ["src0", "src1", …], parent="p", prepend_location = r odd)` over LinearIndex objects
     match vs.mapM w.views.cell with
     | some vcs =>
-      if !(vcs.all (fun vc => vc.kind == .linear)) then (w, .bad)
+      if !(vcs.all (fun vc => vc.kind == .linear && vc.vals.isEmpty)) then (w, .bad)
       else
-        let members := vcs.flatMap (fun vc => vc.sigs)
-        let rs : List Row := members.filterMap (fun c =>
-          (w.sigs.cells[c]?).map (fun sc => { snap := sc.val, sig := some c, hasSigKey := true, loc := none }))
+        let rs : List Row := (vcs.zipIdx).flatMap (fun (vc, n) => vc.sigs.filterMap (fun c =>
+          (w.sigs.cells[c]?).map (fun sc =>
+            ({ snap := sc.val, sig := some c, hasSigKey := true, loc := none, iloc := .label ("src" ++ toString n) } : Row))))
         ({ w with rows := w.rows ++ rs }.viewFresh r
-          { kind := .multi, rows := rowIdsFrom w.rows.length rs.length, scaled := r % 2 }, .ok)
+          { kind := .multi, rows := rowIdsFrom w.rows.length rs.length, scaled := r % 2, loc := .label "p" }, .ok)
     | none => (w, .bad)
   | .vSbt r ss =>
     match w.sigCids ss, w.sigVals ss with
@@ -837,7 +973,7 @@ def step (w : World) : Op → World × Res
         if fmt > 1 || !(uniformScaled v0.mh.maxHash vs) || !distinctMins vs then (w, .bad)
         else
           ({ w with stores := w.stores ++ [vs] }.viewFresh r
-            { kind := .sbtdisk, store := w.stores.length, scaled := Py.scaledProp v0.mh }, .ok)
+            { kind := .sbtdisk, store := w.stores.length, scaled := Py.scaledProp v0.mh, loc := .dir w.stores.length }, .ok)
     | none => (w, .bad)
   | .vSqlite r ss =>
     match w.sigVals ss with
@@ -848,7 +984,7 @@ def step (w : World) : Op → World × Res
         if !(uniformScaled v0.mh.maxHash vs) || !distinctMins vs || vs.any (fun v => v.mh.trackAbundance) then (w, .bad)
         else
           ({ w with stores := w.stores ++ [vs.map (fun (v : SigVal) => (⟨flatOf v.mh, v.name, v.filename⟩ : SigVal))] }.viewFresh r
-            { kind := .sqlite, store := w.stores.length, sel := none }, .ok)
+            { kind := .sqlite, store := w.stores.length, sel := none, loc := .dir w.stores.length }, .ok)
     | none => (w, .bad)
   | .vLcaLoad r fmt ss =>
     match w.sigVals ss with
@@ -860,10 +996,12 @@ def step (w : World) : Op → World × Res
         else
           let flat := vs.map (fun v => (⟨flatOf v.mh, v.name, ""⟩ : SigVal))
           if fmt == 0 then
-            (w.viewFresh r { kind := .lca, vals := flat, scaled := Py.scaledProp v0.mh }, .ok)
+            -- (`LCA_Database.load` records the file name: the JSON file is disk artifact `stores.length`)
+            ({ w with stores := w.stores ++ [flat] }.viewFresh r
+              { kind := .lca, vals := flat, scaled := Py.scaledProp v0.mh, loc := .dir w.stores.length }, .ok)
           else
             ({ w with stores := w.stores ++ [flat] }.viewFresh r
-              { kind := .lcasql, store := w.stores.length, sel := none }, .ok)
+              { kind := .lcasql, store := w.stores.length, sel := none, loc := .dir w.stores.length }, .ok)
     | none => (w, .bad)
   | .vInsert v s =>
     match w.views.cid v, w.views.cell v, w.sigs.cid s, w.sigs.cell s with
@@ -899,7 +1037,9 @@ def step (w : World) : Op → World × Res
   | .vGet r v i =>
     match w.views.cell v with
     | some vc =>
-      if vc.kind.holdsObjects then
+      if vc.kind.holdsObjects && (!vc.vals.isEmpty || vc.rows.any (fun r => ((w.rows[r]?).map (·.anon)).getD false)) then
+        (w, .bad)       -- members that are private copies read from disk: outside the domain of `vget`
+      else if vc.kind.holdsObjects then
         -- the object held by the collection itself
         match heldIds w vc with
         | none => (w, .err "ValueError")
@@ -922,6 +1062,76 @@ def step (w : World) : Op → World × Res
   | .vManifest _ v u ss =>
     if (w.views.cell v).isSome && (w.views.cell u).isSome && ss.all (fun s => (w.sigs.cell s).isSome) then (w, .ok)
     else (w, .bad)
+  | .vMultiOf r prepend inputs =>
+    match inputs.mapM (fun p => (w.views.cell p.1).map (fun vc => (vc, p.2))) with
+    | none => (w, .bad)
+    | some l =>
+      if !(l.all (fun p => p.1.kind.ordered)) then (w, .bad)
+      else
+        match multiRows w l with
+        | .error e => (w, .err e)
+        | .ok rs =>
+          ({ w with rows := w.rows ++ rs }.viewFresh r
+            { kind := .multi, rows := rowIdsFrom w.rows.length rs.length, scaled := if prepend then 1 else 0,
+              loc := .label "p" }, .ok)
+  | .vFrom r kind v =>
+    match w.views.cell v with
+    | none => (w, .bad)
+    | some vc =>
+      if !vc.kind.ordered || kind > 2 then (w, .bad)
+      else
+        match members w vc with
+        | .error e => (w, .err e)
+        | .ok ms =>
+          let ids := ms.filterMap (fun m => match m with | .inl c => some c | .inr _ => none)
+          let anons := ms.filterMap (fun m => match m with | .inl _ => none | .inr x => some x)
+          let vals := ms.filterMap (memberVal w)
+          if kind == 0 then
+            if !ids.isEmpty && !anons.isEmpty then (w, .bad)
+            else (w.viewFresh r { kind := .linear, sigs := ids, vals := anons }, .ok)
+          else
+            match vals with
+            | [] => (w, .bad)
+            | v0 :: _ =>
+              if !(uniformScaled v0.mh.maxHash vals) then (w, .bad)
+              else if kind == 1 then
+                if !anons.isEmpty then (w, .bad)
+                else (w.viewFresh r { kind := .sbt, sigs := ids, vals := vals, scaled := Py.scaledProp v0.mh }, .ok)
+              else if !namesOk vals then (w, .bad)
+              else
+                (w.viewFresh r { kind := .lca, vals := vals.map (fun x => ⟨flatOf x.mh, x.name, ""⟩),
+                                 scaled := Py.scaledProp v0.mh }, .ok)
+  | .vStandOf r v =>
+    match w.views.cell v with
+    | none => (w, .bad)
+    | some vc =>
+      if vc.kind != .standalone then (w, .bad)
+      else
+        -- the CSV is read back: NEW row dicts (with a `signature: None` entry) carrying the same columns
+        let rs : List Row := vc.rows.filterMap (fun r => (w.rows[r]?).map (fun row => { row with hasSigKey := true }))
+        ({ w with rows := w.rows ++ rs, stores := w.stores ++ [[]] }.viewFresh r
+          { kind := .standalone, store := vc.store, rows := rowIdsFrom w.rows.length rs.length,
+            loc := .dir w.stores.length }, .ok)
+  | .vMPath r mode v =>
+    match w.views.cell v with
+    | none => (w, .bad)
+    | some vc =>
+      if !vc.kind.ordered || mode > 2 then (w, .bad)
+      else
+        match viewSigs w vc with
+        | .error e => (w, .err e)
+        | .ok l =>
+          let vs := l.map (·.2)
+          if vs.isEmpty then (w, .bad)
+          else
+            let st := w.stores.length
+            let rs : List Row :=
+              if mode == 0 then anonRows vs (fun _ => .dir st)
+              else if mode == 1 then anonRows vs (fun i => .num i)
+              else anonRows vs (fun _ => .dir st) ++ anonRows vs (fun _ => .dir st)
+            ({ w with rows := w.rows ++ rs, stores := w.stores ++ [vs] }.viewFresh r
+              { kind := .multi, rows := rowIdsFrom w.rows.length rs.length, scaled := if mode == 1 then 1 else 0,
+                loc := .dir st }, .ok)
   | .vZipGroups r manifest k ss =>
     match w.sigVals ss with
     | some vs =>
@@ -930,10 +1140,10 @@ def step (w : World) : Op → World × Res
         let st := w.stores.length
         let w1 := { w with stores := w.stores ++ [vs] }
         if manifest then
-          let rs := diskRows st vs true
+          let rs := diskRows st vs true (fun i _ => .grp (i / k))
           ({ w1 with rows := w.rows ++ rs }.viewFresh r
-            { kind := .zipm, store := st, rows := rowIdsFrom w.rows.length rs.length }, .ok)
-        else (w1.viewFresh r { kind := .zipnm, store := st, sel := none }, .ok)
+            { kind := .zipm, store := st, rows := rowIdsFrom w.rows.length rs.length, loc := .dir st }, .ok)
+        else (w1.viewFresh r { kind := .zipnm, store := st, sel := none, loc := .dir st }, .ok)
     | none => (w, .bad)
 
 /-! ### classification of operations (used by the frame theorems) -/
